@@ -483,6 +483,12 @@ theorem mv_step {cfg : Cfg} {s s' : State} {op : Op} (h : step cfg s op = some s
   | unfarmAndWithdraw a u p n x y e => exact mv_unfarmAndWithdraw h
   | endBlock a ms ds ws => exact mv_endBlock h
   | beginBlock a => simp only [step, Option.some.injEq] at h; subst h; exact Moves.refl _
+  | migrate =>
+    simp only [step] at h
+    unfold migrate at h
+    split at h
+    · cases h; exact Moves.refl _
+    · cases h
 
 theorem mv_runT {cfg : Cfg} (ops : List Op) : ∀ s, Moves s.bank (runT cfg s ops).bank := by
   induction ops with
